@@ -44,6 +44,11 @@ def gen_cfg(rnd, i=0):
         cfg.update(model="linear", loss_kind="river-shared", metric=["MAE", "MSE", "RMSE"][(i // 12) % 3])
         if cfg["explainer"] in ("batch", "interval"):
             cfg["explainer"] = "pfi"
+    elif i % 12 == 8:
+        # the USER feeds the storages by hand (explainer.update_storage + the imputer's own reservoir), explanations run with
+        # update_storage=False; the imputer samples from a SECOND reservoir object next to the explainer's
+        cfg.update(explainer=["sage", "pfi"][(i // 12) % 2], storage=["uniform", "geometric"][(i // 24) % 2], imputer="separate-reservoir",
+                   manual_feed=True, size=[3, 2, 5][(i // 12) % 3], steps=40, model="linear")
     elif i % 12 == 9:       # ... and explainers built entirely from library defaults
         cfg.update(explainer=["sage", "pfi"][(i // 12) % 2], storage="library-default", imputer="joint")
     return cfg
@@ -247,8 +252,12 @@ def scenario_gen(cfg, seed):
     else:
         st = TreeStorage(cat_feature_names=names[:1], num_feature_names=names[1:], max_depth=3, leaf_reservoir_length=4,
                          grace_period=10, seed=cfg.get("tree_seed", 7))
+    st2 = None
     if imp_kind == "library-default":
         imp = None
+    elif imp_kind == "separate-reservoir":
+        st2 = (GeometricReservoirStorage if st_kind == "uniform" else UniformReservoirStorage)(size=size, store_targets=False)
+        imp = MarginalImputer(model, "joint", st2)
     elif imp_kind in ("joint", "product"):
         imp = MarginalImputer(model, imp_kind, st)
     elif imp_kind == "default-arg":
@@ -304,8 +313,13 @@ def scenario_gen(cfg, seed):
             # checkpoint: explainer, storage and imputer are deep-copied TOGETHER (their mutual references preserved) and the stream
             # continues on the copies; the originals are dropped
             import copy
-            e, st, imp = copy.deepcopy((e, st, imp))
-        if kind in ("batch", "batch-many"):
+            e, st, imp, st2 = copy.deepcopy((e, st, imp, st2))
+        if cfg.get("manual_feed") and kind in ("sage", "pfi"):
+            e.update_storage(x, y)
+            if st2 is not None:
+                st2.update(x, y)
+            r = e.explain_one(x, y, update_storage=False)
+        elif kind in ("batch", "batch-many"):
             r = e.explain_one(x, y, verbose=False, original_sage=cfg.get("original_sage", False))
         elif kind == "interval":
             r = e.explain_one(x, y, verbose=False)
@@ -326,6 +340,8 @@ def scenario_gen(cfg, seed):
             xs, ys = st.get_data()
             h.update(repr([sorted((repr(k), fhex(v)) for k, v in xx.items()) for xx in xs]).encode())
             h.update(repr([fhex(v) for v in ys]).encode())
+        if st2 is not None:
+            h.update(repr([sorted((repr(k), fhex(v)) for k, v in xx.items()) for xx in st2.get_data()[0]]).encode())
         yield h.hexdigest()[:12]
 
 
